@@ -35,9 +35,12 @@ class PreludeMixin:
         if isinstance(k, (KDict, KSet)):
             lst = self.snapshot_keys(st, it)
             return self.as_sequence(st, fr, lst)
-        if isinstance(it, tuple) and it and it[0] == 'view':
-            _, mode, d = it
-            keys = self.snapshot_keys(st, d)
+        if isinstance(it, tuple) and it and it[0] in ('view', 'viewsnap'):
+            if it[0] == 'view':
+                _, mode, d = it
+                keys = self.snapshot_keys(st, d)
+            else:
+                _, mode, d, keys = it
             n = keys.t[0]
             def get(s, i, keys=keys, d=d, mode=mode):
                 kv = ops.list_get(keys, i)
@@ -862,6 +865,12 @@ class PreludeMixin:
         return ('zip', list(args))
 
     b_six_moves_zip = b_zip
+
+    def b_itertools_chain(self, st, fr, args, kw):
+        items = []
+        for a in args:
+            items += ops.tuple_items(a)
+        return TupleVal(items)
 
     def b_enumerate(self, st, fr, args, kw):
         if isinstance(args[0], TupleVal):
